@@ -18,9 +18,18 @@ GEN_OBLIGATIONS = sc.GEN_OBLIGATIONS + ["status_enum"]
 THEOREM_DEPS = ["C03Run"]
 
 LC = re.compile(r"^i(c+)v(u*)f$")
+SIG_FIN = "finished-status-overwritten"
 
 
 def oracle(spec, impl):
+    # a component that declared itself FINISHED makes no further step
+    done = set()
+    for e in impl["events"]:
+        if e[0] == "finished":
+            done.add(e[1])
+        elif e[0] == "update" and e[1] in done:
+            return ("a component that has declared itself FINISHED is not updated again (the run ends with every "
+                    "component at or beyond end_time or finished)", {"component": e[1], "updated_to": e[2]}, SIG_FIN)
     if impl["error"] is not None:
         return ("run(end_time) of a valid composition returns", {"error": impl["error"], "msg": impl.get("msg"), "phase": impl["phase"]}, None)
     end = spec["end"]
@@ -57,6 +66,11 @@ def gen(ctx):
         s = sc.gen_ring(ctx.rng, resolved=True)
     if r < 0.6 and ctx.rng.random() < 0.3:
         s = sc.add_branching_adapter(ctx.rng, s)   # a pass-through adapter with two targets (finalized once?)
+    if ctx.rng.random() < 0.06:
+        # one component declares itself FINISHED before the end time (recorded finding: the status does not survive)
+        tcs = [c for c in s["comps"] if c["kind"] == "time"]
+        c = ctx.rng.choice(tcs)
+        c["finish_at"] = c["start"] + ctx.rng.randint(1, max(2, s["end"] // 2))
     if ctx.rng.random() < 0.2:
         starts = [c["start"] for c in s["comps"] if c["kind"] == "time"]
         s["end"] = min(starts) + ctx.rng.choice([0, 1])  # end at / just after the start
@@ -86,7 +100,7 @@ def run(ctx, res):
     res.rule = ("random DAGs and delay-resolved rings (as for C01/C04), end times on and off the step grids incl. "
                 "end = start and end = start + 1, shuffled listing orders; non-trivial = at least 3 updates of at "
                 "least 2 components; distinct by canonical hash")
-    res.assumptions = ["components that declare themselves FINISHED are not generated (harness components never finish)"]
+    res.assumptions = ["6% of the cases contain a component that declares itself FINISHED before the end time: these exhibit the recorded finding finished-status-overwritten and are classified, not hidden"]
     specs = corpus() + [gen(ctx) for _ in range(ctx.n(300, 6000))]
     sc.run_cases(specs, res, [oracle], exclude=c01_known)
 
@@ -99,7 +113,7 @@ def search(ctx, res, divergences, broken):
             continue
         res.case(sc.slim(s), True)
         f = oracle(s, impl)
-        if f:
+        if f and f[2] is None:
             res.fail(sc.slim(s), f[0], f[1], None)
             return
 
@@ -107,16 +121,27 @@ def search(ctx, res, divergences, broken):
 def shrink(ctx, f):
     def still(t):
         impl = run_impl(t, timeout=10)
-        return bool(oracle(t, impl)) and not c01_known(t, impl)
+        o = oracle(t, impl)
+        return bool(o) and o[2] == f.get("signature") and not c01_known(t, impl)
 
     small = sc.shrink_spec(f["case"], still)
     impl = run_impl(small)
     o = oracle(small, impl)
-    return {"case": small, "required": o[0], "observed": o[1], "signature": None} if o else f
+    return {"case": small, "required": o[0], "observed": o[1], "signature": o[2]} if o else f
 
 
 def replay(ctx, rp):
     case = rp.get("input") or (rp.get("diverging_case") or {}).get("case")
     impl = run_impl(case)
     o = oracle(case, impl)
-    return {"fails": bool(o), "oracle": o, "updates": impl["updates"][:40], "error": impl.get("msg"), "calls": impl["calls"]}
+    return {"fails": bool(o) and o[2] is None, "oracle": o, "updates": impl["updates"][:40], "error": impl.get("msg"), "calls": impl["calls"]}
+
+
+def _known_fin(ctx):
+    spec = {"comps": [{"kind": "time", "start": 0, "steps": [1], "finish_at": 2}, {"kind": "time", "start": 0, "steps": [2]}],
+            "links": [], "order": [0, 1], "end": 6}
+    o = oracle(spec, run_impl(spec))
+    return bool(o) and o[2] == SIG_FIN
+
+
+KNOWN_REPRO = {SIG_FIN: _known_fin}
